@@ -596,6 +596,9 @@ func (e *engine) fsckStep(id string, cfg x.Config, d *memdev.Dev, o op, out outc
 			tag = tagLongLink
 		case e.def.staleLink && o.kind == "symlink" && out.refused == nil && len(o.target) >= 60 && len(o.target) < int(view.BlockSize) && strings.Contains(fout, "is invalid"):
 			tag = tagStaleLink
+		case defWriteLeak && (o.kind == "write" || o.kind == "append" || o.kind == "alt") && writeLeakSymptom(out.refused, fout):
+			// the data blocks of a write the extent tree code refused stay marked
+			tag = tagWriteLeak
 		case refusedSpace && e.def.leak && (o.kind == "create" || o.kind == "mkdir" || o.kind == "symlink") &&
 			strings.Contains(fout, "Inode bitmap differences") && !strings.Contains(fout, "Block bitmap differences"):
 			tag = tagLeak
